@@ -19,8 +19,8 @@
      model.py:931  GaussianConstr.get_constrain_term -> gauss_term
      model.py:1341 CombineFCN.__call__        -> combine
    Quirks transcribed on purpose: alpha is applied three times on the FCN.__call__ path
-   (FCN.__init__, Model.nll, BaseModel.nll) and once on the nll_grad path; Model_cfit.nll uses the
-   plain logarithm while its nll_grad_batch uses clip_log.
+   (FCN.__init__, Model.nll, BaseModel.nll) and once on the nll_grad path; Model_cfit.nll / ModelCfitExtended.nll
+   use clip_log like their nll_grad_batch since /repo 9a16823 (before: the plain logarithm, cfit_call / cfit_ext_call).
    The model describes the code with the repairs proposed in /verif/build/fix_C06 (patch_1, patch_2, patch_4, patch_10):
    simple_cfit reads the data-side efficiency from "eff_value" (the old code read the key "err_value", so an
    "eff_value" column of the data was ignored: simple_cfit_call_old); a scalar bg_frac gives one cfit model PER DATA SET
@@ -122,9 +122,16 @@ Definition sig_of (e f : list R) : list R := rzip Rmult e f.
 Definition cfit_probs (fb : R) (e f b V eg g bm : list R) : list R :=
   rzip (cfit_prob fb (rdot V (sig_of eg g)) (rdot V bm)) (sig_of e f) b.
 
-(* Model_cfit.nll via FCN.__call__ (plain log, weights rescaled once more) *)
+(* Model_cfit.nll via FCN.__call__ BEFORE /repo 9a16823 (plain log, weights rescaled once more).  OLD code: kept under
+   this name because Lik/Grad*.v (C07) refers to it as the old stand-alone value *)
 Definition cfit_call (fb : R) (W e f b V eg g bm : list R) : R :=
   - rdot (scale_w W) (map ln (cfit_probs fb e f b V eg g bm)).
+
+(* Model_cfit.nll via FCN.__call__ since /repo 9a16823: the same clip_log as nll_grad_batch (weights rescaled once more).
+   (Resolution size 1: an event of weight 0 has the guarded density 0 in the code and contributes 0 * clip_log(0) = 0,
+   as it does here with 0 * clip_log(P).) *)
+Definition cfit_nll (fb : R) (W e f b V eg g bm : list R) : R :=
+  - rdot (scale_w W) (map clip_log (cfit_probs fb e f b V eg g bm)).
 
 (* value of Model_cfit.nll_grad_batch / nll_grad_hessian (clip_log) *)
 Definition cfit_gradval (fb : R) (W e f b V eg g bm : list R) : R :=
@@ -133,8 +140,14 @@ Definition cfit_gradval (fb : R) (W e f b V eg g bm : list R) : R :=
 (* ModelCfitExtended.nll : ... - sw ln(lambda) + lambda, lambda = I_sig/(1-f_bg) *)
 Definition cfit_lambda (fb : R) (V eg g : list R) : R := rdot V (sig_of eg g) / (1 - fb).
 
+(* OLD (before 9a16823): plain log *)
 Definition cfit_ext_call (fb : R) (W e f b V eg g bm : list R) : R :=
   - rdot (scale_w W) (map ln (cfit_probs fb e f b V eg g bm))
+  - rsum (scale_w W) * ln (cfit_lambda fb V eg g) + cfit_lambda fb V eg g.
+
+(* ModelCfitExtended.nll since 9a16823: clip_log *)
+Definition cfit_ext_nll (fb : R) (W e f b V eg g bm : list R) : R :=
+  - rdot (scale_w W) (map clip_log (cfit_probs fb e f b V eg g bm))
   - rsum (scale_w W) * ln (cfit_lambda fb V eg g) + cfit_lambda fb V eg g.
 
 Definition cfit_ext_gradval (fb : R) (W e f b V eg g bm : list R) : R :=
@@ -146,9 +159,16 @@ Definition cfit_doc (fb : R) (w e f b v eg g bm : list R) : R :=
   - alpha w * rdot w (map ln (cfit_probs fb e f b (mc_norm v) eg g bm)).
 
 Definition cfit_default (fb : R) (ws e f b v eg g bm : list R) : R :=
-  cfit_call fb (fcn_weight ws []) e f b (mc_norm v) eg g bm.
+  cfit_nll fb (fcn_weight ws []) e f b (mc_norm v) eg g bm.
 
 Definition cfit_ext_default (fb : R) (ws e f b v eg g bm : list R) : R :=
+  cfit_ext_nll fb (fcn_weight ws []) e f b (mc_norm v) eg g bm.
+
+(* the stand-alone values of the OLD code *)
+Definition cfit_default_old (fb : R) (ws e f b v eg g bm : list R) : R :=
+  cfit_call fb (fcn_weight ws []) e f b (mc_norm v) eg g bm.
+
+Definition cfit_ext_default_old (fb : R) (ws e f b v eg g bm : list R) : R :=
   cfit_ext_call fb (fcn_weight ws []) e f b (mc_norm v) eg g bm.
 
 Definition cfit_ext_doc (fb : R) (w e f b v eg g bm : list R) : R :=
